@@ -2,6 +2,7 @@
 //! This module contains both the regular and aggregate functions used in the query language.
 
 use std::collections::HashMap;
+use std::cmp::Ordering;
 use std::fmt::Display;
 use std::fmt::Error;
 use std::fmt::Formatter;
@@ -1000,26 +1001,14 @@ pub fn get_aggregate_value(
 ) -> String {
     //* Refer to the Function enum for a list of available functions and their descriptions
     match function {
-        Some(Function::Min) => {
-            let min = raw_output_buffer
-                .iter()
-                .filter_map(|item| item.get(&buffer_key)) // Get the value from the buffer
-                .filter_map(|value| value.parse::<i64>().ok()) // Parse the value and filter out errors
-                .min()
-                .unwrap_or(0); // If no items were found
-
-            min.to_string()
-        }
-        Some(Function::Max) => {
-            let max = raw_output_buffer
-                .iter()
-                .filter_map(|item| item.get(&buffer_key)) // Get the values from the buffer
-                .filter_map(|value| value.parse::<i64>().ok()) // Parse the value and filter out errors
-                .max()
-                .unwrap_or(0); // If no items were found
-
-            max.to_string()
-        }
+        Some(Function::Min) => match buffer_extreme(raw_output_buffer, &buffer_key, Ordering::Less) {
+            Some(min) => min.to_string(),
+            None => String::from("0"), // If no items were found
+        },
+        Some(Function::Max) => match buffer_extreme(raw_output_buffer, &buffer_key, Ordering::Greater) {
+            Some(max) => max.to_string(),
+            None => String::from("0"), // If no items were found
+        },
         Some(Function::Avg) => {
             if raw_output_buffer.is_empty() {
                 return String::from("0");
@@ -1083,8 +1072,62 @@ pub fn get_aggregate_value(
     }
 }
 
+/// A value of an aggregated column or expression: a whole number of any size that occurs
+/// (sizes add up beyond 2^64), or a real number (`size / 2`, `size - 10` may be anything).
+#[derive(Clone, Copy)]
+enum Number {
+    Whole(i128),
+    Real(f64),
+}
+
+impl Number {
+    fn as_f64(&self) -> f64 {
+        match self {
+            Number::Whole(value) => *value as f64,
+            Number::Real(value) => *value,
+        }
+    }
+}
+
+impl Display for Number {
+    fn fmt(&self, f: &mut Formatter<'_>) -> Result<(), Error> {
+        match self {
+            Number::Whole(value) => write!(f, "{}", value),
+            Number::Real(value) => write!(f, "{}", value),
+        }
+    }
+}
+
+/// The numbers found under the buffer key; what is no number (an empty value) is left out.
+fn buffer_numbers(raw_output_buffer: &Vec<HashMap<String, String>>, buffer_key: &String) -> Vec<Number> {
+    raw_output_buffer
+        .iter()
+        .filter_map(|item| item.get(buffer_key))
+        .filter_map(|value| match value.parse::<i128>() {
+            Ok(whole) => Some(Number::Whole(whole)),
+            _ => value.parse::<f64>().ok().map(Number::Real),
+        })
+        .collect()
+}
+
+fn buffer_extreme(
+    raw_output_buffer: &Vec<HashMap<String, String>>,
+    buffer_key: &String,
+    wanted: Ordering,
+) -> Option<Number> {
+    buffer_numbers(raw_output_buffer, buffer_key)
+        .into_iter()
+        .reduce(|best, number| {
+            let ordering = match (&number, &best) {
+                (Number::Whole(a), Number::Whole(b)) => a.cmp(b),
+                (a, b) => a.as_f64().partial_cmp(&b.as_f64()).unwrap_or(Ordering::Equal),
+            };
+            if ordering == wanted { number } else { best }
+        })
+}
+
 /// Get the variance of all values in the buffer, based on the buffer key.
-/// If the value can't be parsed as usize, it will be ignored.
+/// A value that is no number is ignored.
 fn get_variance(
     raw_output_buffer: &Vec<HashMap<String, String>>,
     buffer_key: &String,
@@ -1093,39 +1136,34 @@ fn get_variance(
     let avg = get_mean(raw_output_buffer, buffer_key);
 
     let mut result: f64 = 0.0;
-    for value in raw_output_buffer {
-        if let Some(value) = value.get(buffer_key) {
-            if let Ok(value) = value.parse::<f64>() {
-                result += (avg - value).powi(2) / n as f64;
-            }
-        }
+    for number in buffer_numbers(raw_output_buffer, buffer_key) {
+        result += (avg - number.as_f64()).powi(2) / n as f64;
     }
 
     result
 }
 
 /// Get the mean of all values in the buffer, based on the buffer key.
-/// If the value can't be parsed as usize, it will be ignored.
+/// A value that is no number is ignored.
 fn get_mean(raw_output_buffer: &Vec<HashMap<String, String>>, buffer_key: &String) -> f64 {
     let sum = get_buffer_sum(raw_output_buffer, buffer_key);
     let size = raw_output_buffer.len();
 
-    sum as f64 / size as f64
+    sum.as_f64() / size as f64
 }
 
-/// Get the sum of all values in the buffer, based on the buffer key.
-/// If the value can't be parsed as usize, it will be ignored.
-fn get_buffer_sum(raw_output_buffer: &Vec<HashMap<String, String>>, buffer_key: &String) -> usize {
-    let mut sum = 0;
-    for value in raw_output_buffer {
-        if let Some(value) = value.get(buffer_key) {
-            if let Ok(value) = value.parse::<usize>() {
-                sum += value;
-            }
-        }
-    }
-
-    sum
+/// Get the sum of all values in the buffer, based on the buffer key: exact while all of them
+/// are whole numbers.
+fn get_buffer_sum(raw_output_buffer: &Vec<HashMap<String, String>>, buffer_key: &String) -> Number {
+    buffer_numbers(raw_output_buffer, buffer_key)
+        .into_iter()
+        .fold(Number::Whole(0), |sum, number| match (sum, number) {
+            (Number::Whole(a), Number::Whole(b)) => match a.checked_add(b) {
+                Some(total) => Number::Whole(total),
+                None => Number::Real(a as f64 + b as f64),
+            },
+            (a, b) => Number::Real(a.as_f64() + b.as_f64()),
+        })
 }
 
 #[cfg(test)]
